@@ -24,6 +24,14 @@ var verifCancelProgs = []verifCancelProg{
 	{"loop-try", "fn main() {\n  loop {\n    try { throw(\"x\"); } catch e { }\n  }\n}\n", true, true},
 	{"nested-loops", "fn main() {\n  loop {\n    for i in 0..3 { let x = i; }\n  }\n}\n", true, true},
 	{"finite", "fn main() {\n  let s = 0;\n  for i in 0..40 { s += i; }\n  println(s);\n}\n", false, true},
+	{"while-empty", "fn main() {\n  while true { }\n}\n", true, true},
+	{"while-cond-empty", "fn main() {\n  let n = 1;\n  while n > 0 { }\n}\n", true, true},
+	{"for-empty-huge", "fn main() {\n  for i in 0..4000000000000 { }\n}\n", true, true},
+	{"for-list-inner-loop", "fn main() {\n  for x in [1, 2, 3] { loop { } }\n}\n", true, true},
+	{"loop-in-catch", "fn main() {\n  try { throw(\"x\"); } catch e { loop { } }\n}\n", true, true},
+	{"loop-in-callee", "fn spin() {\n  loop { }\n}\nfn main() {\n  spin();\n}\n", true, true},
+	{"loop-match", "fn main() {\n  let k = 1;\n  loop { match k { 1 => { k = 2; }, _ => { k = 1; } } }\n}\n", true, true},
+	{"loop-if-expr", "fn main() {\n  let k = 1;\n  loop { k = if k == 1 { 2 } else { 1 }; }\n}\n", true, true},
 	{"spawned-core", "fn w() {\n  loop { }\n}\nfn main() {\n  spawn w();\n  loop { }\n}\n", true, false},
 }
 
